@@ -72,7 +72,7 @@ def prove(cond, name):
     rel = relevant_pc(p)
     # back end 0: cheap counter-model search by random evaluation (sound for refutation: models are replayed natively)
     import random
-    from .core import base_support, peval as _pe
+    from .core import base_support, peval as _pe, Undecided as core_Undecided, unpoison
     rnd = random.Random(len(C.pc) * 7919 + len(p))
     sup = [a for a in base_support(rel + [p]) if isinstance(a, int)]
     free = [a for a in sup if a not in C.subst]
@@ -85,6 +85,9 @@ def prove(cond, name):
                 LOG.append((name, "REFUTED-random", time.time() - t0))
                 raise Refuted(name, complete_model({a: env[a] for a in free}, rel))
         except KeyError:
+            break
+        except core_Undecided as e:  # (integer-valued atoms: no random search)
+            unpoison(e)
             break
     before = dict(C.stats)
     st, env = solve(rel + [pnot(p)], want_model=True)
@@ -111,4 +114,12 @@ def concretise(x, env):
         return bitarray([concretise(b, env) if isinstance(b, SBit) else b for b in x.b], endian=x.endian)
     if isinstance(x, SBytes):
         return bytes(concretise(v, env) if is_sym(v) else v for v in x.v)
+    if type(x).__name__ == "SZInt":
+        m = env.get("__z3model__")
+        if m is None:
+            return 0
+        import z3 as _z3
+
+        sub = [(_z3.Bool(f"a{b}"), _z3.BoolVal(bool(env[b]))) for b in list(env) if isinstance(b, int) and b not in C.gates]
+        return m.eval(_z3.substitute(x.t, *sub) if sub else x.t, model_completion=True).as_long()
     return x
